@@ -150,6 +150,9 @@ pub struct Rewriter<'a> {
     /// crate-local async fns: `f(args).await` is the sequential call `f(args, Tracked(w))`
     pub async_fns: Vec<String>,
     pub await_methods: Vec<String>,
+    pub fold_step_fn: Option<String>,
+    pub fold_step_args: Vec<String>,
+    pub recv_stream_fn: Option<String>,
     /// R15: method name -> kinds ("poll" | "option") for successive occurrences (pre-order)
     pub desugar: HashMap<String, Vec<String>>,
     pub desugar_seen: HashMap<String, usize>,
@@ -500,6 +503,29 @@ impl<'a> VisitMut for Rewriter<'a> {
                     None
                 }
             }
+            Expr::Await(a) if self.fold_step_fn.is_some() && matches!(&*a.base, Expr::MethodCall(m) if m.method == "fold" && m.args.len() == 2 && matches!(&m.args[1], Expr::Closure(c) if c.inputs.len() == 2)) => {
+                // R28: `STREAM.fold(INIT, move |acc, item| async move { STEP }).await` where STEP is the closure the unit names as a
+                // function of its own (verified in its own unit against the contract used here): futures' `fold` takes the items one
+                // at a time, awaits the step's future before asking for the next item, and returns the last accumulator
+                let Expr::MethodCall(m) = &*a.base else { unreachable!() };
+                let n = self.fresh();
+                let it = format_ident!("vx_itR{}", n);
+                let acc = format_ident!("vx_accR{}", n);
+                let item_id = format_ident!("vx_itemR{}", n);
+                let recv = &m.receiver;
+                let init = &m.args[0];
+                let step = format_ident!("{}", self.fold_step_fn.clone().unwrap());
+                let extra: Vec<Ident> = self.fold_step_args.iter().map(|x| format_ident!("{}", x)).collect();
+                self.fired.push("R28-stream-fold-with-contracted-step".into());
+                Some(parse_quote! {{
+                    let mut #acc = #init;
+                    let mut #it = #recv;
+                    while let Some(#item_id) = #it.next(Tracked(w)) {
+                        #acc = #step(#acc, #item_id, #(#extra,)* Tracked(w));
+                    }
+                    #acc
+                }})
+            }
             Expr::Await(a) if matches!(&*a.base, Expr::MethodCall(m) if self.await_methods.contains(&m.method.to_string())) => {
                 // R6'': `recv.m(args).await` for a crate-local async METHOD named by the unit: a sequential call of the method
                 let inner = &a.base;
@@ -521,6 +547,14 @@ impl<'a> VisitMut for Rewriter<'a> {
                 } else {
                     Some(parse_quote! { vx_await(#inner) })
                 }
+            }
+            Expr::Call(c) if self.recv_stream_fn.is_some() && r29_recv_stream_target(c).is_some() => {
+                // R29: `stream::poll_fn(move |cx| RX.poll_recv(cx))` - the stream of the values received on RX - becomes the
+                // prelude's receiver-stream constructor named by the unit
+                let rx = r29_recv_stream_target(c).unwrap();
+                let f = format_ident!("{}", self.recv_stream_fn.clone().unwrap());
+                self.fired.push("R29-receiver-as-stream".into());
+                Some(parse_quote! { #f(#rx) })
             }
             Expr::Macro(m) => {
                 let mname = m.mac.path.segments.last().map(|s| s.ident.to_string()).unwrap_or_default();
@@ -867,6 +901,21 @@ fn r27_drain_target(e: &Expr) -> Option<Ident> {
     rx.path.get_ident().cloned()
 }
 
+/// R29 shape test: `<path ending in poll_fn>(move |c| RX.poll_recv(c))` with RX a plain identifier
+fn r29_recv_stream_target(c: &ExprCall) -> Option<Ident> {
+    let Expr::Path(fp) = &*c.func else { return None };
+    if fp.path.segments.last().map(|s| s.ident != "poll_fn").unwrap_or(true) || c.args.len() != 1 { return None; }
+    let Expr::Closure(cl) = &c.args[0] else { return None };
+    if cl.inputs.len() != 1 { return None; }
+    let Pat::Ident(cx) = &cl.inputs[0] else { return None };
+    let Expr::MethodCall(inner) = &*cl.body else { return None };
+    if inner.method != "poll_recv" || inner.args.len() != 1 { return None; }
+    let Expr::Path(arg) = &inner.args[0] else { return None };
+    if arg.path.get_ident() != Some(&cx.ident) { return None; }
+    let Expr::Path(rx) = &*inner.receiver else { return None };
+    rx.path.get_ident().cloned()
+}
+
 pub fn apply_all(block: &mut Block, item: &Value, fired: &mut Vec<String>, name: &str) {
     let rename_methods: HashMap<String, String> = item
         .get("rename_methods")
@@ -892,6 +941,9 @@ pub fn apply_all(block: &mut Block, item: &Value, fired: &mut Vec<String>, name:
         drop_fn: item.get("drop_fn").and_then(|x| x.as_str()).unwrap_or("vx_drop_sender_opt").to_string(),
         async_fns: list("async_fns"),
         await_methods: list("await_methods"),
+        fold_step_fn: item.get("fold_step_fn").and_then(|x| x.as_str()).map(String::from),
+        fold_step_args: list("fold_step_args"),
+        recv_stream_fn: item.get("recv_stream_fn").and_then(|x| x.as_str()).map(String::from),
         user_call_ret: item.get("user_call_ret").and_then(|x| x.as_str()).map(String::from),
         user_call_try: item.get("user_call_try").and_then(|x| x.as_bool()).unwrap_or(false),
         user_call_sync: item.get("user_call_sync").and_then(|x| x.as_bool()).unwrap_or(false),
